@@ -364,8 +364,12 @@ func TestVerifC15(t *testing.T) {
 			nw := vnNewNet(t)
 			vs := []cert.Version{ver}
 			extra := m{"cipher": cipher, "listen": m{"accept_recv_error": "never"}, "timers": m{"connection_alive_interval": 3600, "pending_deletion_interval": 3600}}
+			if sess/8%2 == 1 {
+				// routine-local conntrack cache on (as with routines > 1): its entries carry no peer identity
+				extra["firewall"] = m{"conntrack": m{"routine_cache_timeout": "1h"}}
+			}
 			use := vnMerge(m{"relay": m{"use_relays": true}}, extra)
-			s := &c15Sess{r: r, nw: nw, sess: sess, desc: fmt.Sprintf("cert v%d curve=%v cipher=%s", ver, curve, cipher),
+			s := &c15Sess{r: r, nw: nw, sess: sess, desc: fmt.Sprintf("cert v%d curve=%v cipher=%s routine-cache=%v", ver, curve, cipher, sess/8%2 == 1),
 				sent: map[[16]byte]c15Sent{}, delivered: map[[16]byte]int{}, tunSeen: map[*vnNode]int{}, handedToR: map[string]bool{}, nonces: map[string]string{}, oldInners: map[[2]*vnNode][][]byte{}}
 			s.A = nw.AddNode(ca.issue(vs, "a", "10.1.0.1/16", "", nil), []*vnCA{ca}, "192.0.2.1:4242", use)
 			s.C = nw.AddNode(ca.issue(vs, "c", "10.1.0.3/16", "", nil), []*vnCA{ca}, "192.0.2.3:4242", use)
